@@ -678,6 +678,19 @@ def c13(ctx):
             acc = False
         if acc != (n >= 8):
             out.append({"family": "OP", "what": "preset", "corresponds": True, "impl": "", "model": "", "property_violation": {"what": f"LookupPreset(max_names={n}) is {'accepted' if acc else 'rejected'}"}, "signature": {}})
+    # tables above the reader's limit on the writer side: the configuration is either refused or what
+    # it writes can be read back (C01: a sizing the writer accepts round-trips; C06: a combination that
+    # cannot be honoured must raise instead of writing)
+    for which, n in itertools.product(("maxn", "maxp", "maxd"), (4096, 4097, 5000, 70000)):
+        cfg = Cfg(cls="T", logical=1, delim=True, maxn=128, maxp=8, maxd=8)
+        setattr(cfg, which, n)
+        stmts = [gs.Triple(gs.IRI("http://a/s"), gs.IRI("http://a/p"), gs.Literal("x", datatype="http://a/dt"))]
+        case = {"cfg": cfg, "stmts": stmts, "ns": [], "sink": False, "entry": "flat_file", "oracles": ["roundtrip"]}
+        ctx.report.evaluations += 1
+        ctx.report.count(f"C13/writer-bound/{which}={n}")
+        d = fam_encode.run_case(ctx, case)
+        if d:
+            out.append(d)
     # (d) strict matrix
     for l, phys in itertools.product(core.LOGICALS, (1, 2, 3)):
         from pyjelly.options import validate_type_compatibility
